@@ -11,12 +11,15 @@ import random
 from scen import Scn
 import scenario_common as sc
 
-PHASES = ["init", "dispatched", "responded", "reset", "done"]
+PHASES = ["init", "dispatched", "responded", "reset", "slowreset", "failreset", "done"]
 
 
 def one(sid, phase, third, with_ext):
     subs = {"e1": ["INVOKE"]} if with_ext else {}
-    s = Scn(sid, ext=list(subs), timeout_ms=400, onTerm={"e1": "exit"})
+    if phase in ("slowreset", "failreset"):
+        # an extension that ignores its SHUTDOWN event keeps the reset running until the 2 s deadline
+        subs = {"e1": ["INVOKE", "SHUTDOWN"]}
+    s = Scn(sid, ext=list(subs), timeout_ms=400, onTerm={"e1": "ignore" if phase in ("slowreset", "failreset") else "exit"})
     s.meta(family="second-caller", phase=phase)
     s.init()
     for n in subs:
@@ -53,6 +56,17 @@ def one(sid, phase, third, with_ext):
     if phase == "reset":
         # the runtime never answers: the timer fires, the second caller arrives during the reset
         s.sleep(405)
+        extra()
+        s.wait(i1)
+    elif phase in ("slowreset", "failreset"):
+        if phase == "failreset":
+            s.exit("rt", code=1)        # the invocation fails: Reset("ReleaseFail")
+        # wait until the reset has told the extension to shut down, then the extra callers arrive
+        s.until_ev("NextRet", actor="ext:e1", key="kind", val="SHUTDOWN") if False else None
+        s.until_ev("Terminate" if phase == "slowreset" else "KillCall", n=1) if phase == "slowreset" else s.sleep(60)
+        s.sleep(50)
+        extra()
+        s.sleep(300)
         extra()
         s.wait(i1)
     else:
